@@ -1475,8 +1475,9 @@ func (r *Raft) InstallSnapshot(
 	}
 
 	// Restore the state machine with the snapshot.
-	// This could take a while so it's probably best that the lock is released.
-	r.mu.Unlock()
+	// The lock must be held until the log has been discarded: the snapshot is
+	// already visible but the log still disagrees with it, so no request may be
+	// handled and no entry may be committed or applied in between.
 	r.logger.Warnf(
 		"restoring state machine with snapshot: lastIndex = %d, lastTerm = %d",
 		request.LastIncludedIndex,
@@ -1487,11 +1488,6 @@ func (r *Raft) InstallSnapshot(
 	}
 	if err := snapshot.Close(); err != nil {
 		r.logger.Fatalf("failed to close snapshot file: error = %v", err)
-	}
-	r.mu.Lock()
-
-	if r.state == Shutdown {
-		return nil
 	}
 
 	r.lastApplied = request.LastIncludedIndex
